@@ -367,12 +367,29 @@ func crashRec(r *core.Report, cs *crashScope, extra func(site ssa.CallInstructio
 			if !branching {
 				continue
 			}
-			memo := ""
+			memo, dropped := "", ""
 			// the chain is handed back (what one branch saw, the next one knows)
 			res := f.Signature.Results()
 			for i := 0; i < res.Len(); i++ {
 				if _, isSlice := res.At(i).Type().Underlying().(*types.Slice); isSlice {
 					memo = "the chain is returned and passed on: it is a visited list, not a path"
+					// ... at every recursive call: a call that drops the returned chain forgets what
+					// was seen below it
+					for _, ci := range self {
+						v := ci.Value()
+						used := false
+						if v != nil && v.Referrers() != nil {
+							for _, ref := range *v.Referrers() {
+								if ex, ok := ref.(*ssa.Extract); ok && ex.Index == i && ex.Referrers() != nil && len(*ex.Referrers()) > 0 {
+									used = true
+								}
+							}
+						}
+						if !used {
+							memo = ""
+							dropped = p.Pos(ci.Pos())
+						}
+					}
 				}
 			}
 			// a set that is written and never emptied
@@ -391,6 +408,10 @@ func crashRec(r *core.Report, cs *crashScope, extra func(site ssa.CallInstructio
 			if memo != "" {
 				edges = append(edges, edge{key, p.Pos(f.Pos()), memo, true, f, f})
 			} else {
+				if dropped != "" {
+					edges = append(edges, edge{key, dropped, fmt.Sprintf("%s hands the chain of visited objects back to its caller, but the recursive call at %s drops what it returns: everything visited below that call is forgotten, an object shared with a sibling is walked again, and a ladder of n levels reached two ways each takes 2^n steps", shortFn(f), dropped), false, f, f})
+					continue
+				}
 				edges = append(edges, edge{key, p.Pos(f.Pos()), fmt.Sprintf("%s descends into several sub-objects per call and protects itself only with the chain of objects on the current path: an object shared by two sub-objects (schemas are shared through $ref) is walked once per way of reaching it, so a chain of n levels with two references each takes 2^n steps (n = 40 does not end) on a document that is small and valid", shortFn(f)), false, f, f})
 			}
 		}
